@@ -222,7 +222,12 @@ impl Property for P {
             Tier::Quick => 10,
             Tier::Thorough => 24,
         };
-        let plain = prop::collection::vec((tbl(PLAIN_WORDS), tbl(PLAIN_SEPS)), 0..=n).prop_map(|v| {
+        let pairs = prop_oneof![
+            80 => prop::collection::vec((tbl(PLAIN_WORDS), tbl(PLAIN_SEPS)), 0..=n),
+            1 => gen::log_count(600)
+                .prop_flat_map(|k| prop::collection::vec((tbl(PLAIN_WORDS), tbl(PLAIN_SEPS)), k..=k)),
+        ];
+        let plain = pairs.prop_map(|v| {
             let mut s = String::new();
             for (w, sep) in v {
                 s.push_str(w);
